@@ -257,8 +257,19 @@ func (c *Config) ValidateAndFillDefaults(baseDir string) error {
 	// This is a no-op in some of the error cases, but it still doesn't hurt.
 	c.pkgPath = pkgPath
 
+	for name, binding := range c.Bindings {
+		if binding == nil {
+			return errorf(nil, "invalid binding for %v in genqlient.yaml: "+
+				"expected a mapping with at least a type", name)
+		}
+	}
+
 	if len(c.PackageBindings) > 0 {
 		for _, binding := range c.PackageBindings {
+			if binding == nil {
+				return errorf(nil, "invalid empty entry in package_bindings in genqlient.yaml")
+			}
+
 			if strings.HasSuffix(binding.Package, ".go") {
 				// total heuristic -- but this is an easy mistake to make and
 				// results in rather bizarre behavior from go/packages.
